@@ -1,6 +1,6 @@
 (* CodePage.v -- model of src/internal/codepage.rs. *)
 From MsiModel Require Import Base.
-From MsiGen Require Import GenCodePage.
+From MsiGen Require Import GenCodePage GenSingleByte.
 Open Scope N_scope.
 
 Definition codepage := str.   (* the variant identifier, e.g. "Windows1252" *)
@@ -108,11 +108,38 @@ Section Loop.
     match enc1 c with Some b => b | None => [CP_REPLACEMENT] end.
 End Loop.
 
-(* encode / decode for the two code pages whose codecs live in Coq *)
+(* ---- single-byte code pages (windows-125x, ISO 8859-x, Macintosh) ---------------------------------------------- *)
+(* encoding_rs keeps one 128-entry table per single-byte encoding (code point of byte 0x80+i, 0 = unmapped);
+   GenSingleByte.SB_TABLES is regenerated from the release pinned by Cargo.lock.  Bytes below 0x80 are ASCII. *)
+Fixpoint assoc_SL (k : str) (l : list (str * list N)) : option (list N) :=
+  match l with
+  | [] => None
+  | (a, b) :: r => if str_eqb a k then Some b else assoc_SL k r
+  end.
+Definition sb_table (c : codepage) : option (list N) :=
+  match cp_encoding_label c with Some l => assoc_SL l SB_TABLES | None => None end.
+Definition sb_dec1 (tbl : list N) (x : N) : N :=
+  if x <? 128 then x
+  else match nth_error tbl (N.to_nat (x - 128)) with
+       | Some c => if c =? 0 then 65533 else c
+       | None => 65533
+       end.
+Fixpoint sb_index (c : N) (tbl : list N) (i : N) : option N :=
+  match tbl with
+  | [] => None
+  | h :: r => if h =? c then Some i else sb_index c r (i + 1)
+  end.
+Definition sb_enc1 (tbl : list N) (c : N) : N :=
+  if c <? 128 then c
+  else match sb_index c tbl 0 with Some i => 128 + i | None => CP_REPLACEMENT end.
+Definition sb_encode (tbl : list N) (s : str) : bytes := map (sb_enc1 tbl) s.
+Definition sb_decode (tbl : list N) (b : bytes) : str := map (sb_dec1 tbl) b.
+
+(* encode / decode for the code pages whose codecs live in Coq: US-ASCII, UTF-8 and every single-byte page *)
 Definition cp_encode (c : codepage) (s : str) : option bytes :=
   if str_eqb c cp_ascii then Some (ascii_encode s)
   else if str_eqb c cp_utf8 then Some (utf8_enc s)
-  else None.
+  else match sb_table c with Some t => Some (sb_encode t s) | None => None end.
 
 Definition strip_bom (b : bytes) : option bytes :=
   match b with
@@ -125,4 +152,4 @@ Definition cp_decode (c : codepage) (b : bytes) : option str :=
     Some (if CP_DECODE_SNIFFS_BOM then
             match strip_bom b with Some r => utf8_decode r | None => utf8_decode b end
           else utf8_decode b)
-  else None.
+  else match sb_table c with Some t => Some (sb_decode t b) | None => None end.
